@@ -71,6 +71,8 @@ def check(kind, spectrum, L, freq, dirs, out, requested, wind=None, celerity_lib
         swell_src = [(k, np.where(b, Sc, 0)) for k, b in enumerate(bas)]
     else:
         wspd, wdir, dpt, agefac, wscut = wind
+        # the library forms the fraction from sums in the dtype of the data: two float32 sums of ~nf*nd terms
+        fr_tol = 1e-9 if np.asarray(S).dtype == np.float64 else 4e-6
         mask, amb = windsea_masks(freq, dirs, wspd, wdir, dpt, agefac, celerity_lib)
         sea_basins, swell_src = [], []
         for k, b in enumerate(bas):
@@ -78,9 +80,9 @@ def check(kind, spectrum, L, freq, dirs, out, requested, wind=None, celerity_lib
             lo, hi = frac_bounds(part, mask, amb)
             if np.isnan(lo):
                 swell_src.append((k, np.where(b, Sc, 0)))      # empty basin: nan > wscut is False
-            elif lo > wscut + 1e-9 and hi > wscut + 1e-9:
+            elif lo > wscut + fr_tol and hi > wscut + fr_tol:
                 sea_basins.append(k)
-            elif hi < wscut - 1e-9 and lo < wscut - 1e-9:
+            elif hi < wscut - fr_tol and lo < wscut - fr_tol:
                 swell_src.append((k, np.where(b, Sc, 0)))
             else:
                 return [], "wind-sea fraction within rounding/approximation of the cutoff"
